@@ -319,6 +319,11 @@ def boundary_histories():
                 hs.append([('add', cont, 0), ('ninsl', (0,), lst, None), ('ninsl', (0,), lst, 0), ('ninsl', (0,), lst, 9)])
     hs.append([('text', [S('media', kids=[S('media', kids=[st]), S('page', kids=[mar])])]),
                ('ninsl', (0, 0), [st, ff, co], 1), ('ninsl', (0, 1), [mar, st], None), ('ninsl', (0, 1), [S('margin', pre='@top-right')], 0)])
+    # a namespace used only by a style rule inside (nested) @media rules is in use: deleteRule / del namespaces refuse
+    for depth_kids in ([S('style', used=['u'])], [S('media', kids=[S('style', used=['u'])])],
+                       [S('media', kids=[S('media', kids=[S('style', used=['u'])]), S('comment')])]):
+        hs.append([('text', [ns, S('media', kids=depth_kids)]), ('nsdel', 'p'), ('del', 0), ('nsset', 'q', 'u'), ('nsdel', 'p'),
+                   ('ins', S('namespace', pre='p', uri='b'), 0, 0), ('del', 1), ('nsdel', 'q'), ('del', 0)])
     # the default namespace, used by a bare type selector
     hs.append([('nsset', '', 'u'), ('ins', S('style', used=['u']), None, 1), ('nsdel', ''), ('nsset', '', 'u'), ('nsset', '', 'v'),
                ('nsset', 'p', 'u'), ('nsdel', ''), ('del', 0), ('del', 0), ('nsdel', 'p')])
@@ -604,6 +609,10 @@ class HistState:
             return 'ERR ' + type(e).__name__
         except AttributeError as e:
             return 'ERR AttributeError'
+        except IndexError:
+            if t in ('nins', 'ninsl', 'ndel', 'ntext', 'decl'):
+                return 'ERR NoSuchPath'     # the history addresses a nested list that is not there (any more)
+            raise
         if r is None:
             return 'NONE'
         if isinstance(r, int) and not isinstance(r, bool):
